@@ -617,6 +617,15 @@ func (g *Gen) trCall(e *CCall, env *Env) (string, VType) {
 		k, _ := g.trAs(e.Args[1], env, ks)
 		v, _ := g.trAs(e.Args[2], env, vs)
 		return fmt.Sprintf("(store %s %s %s)", a, k, v), at
+	case "dyntype":
+		x, _ := g.trAs(e.Args[0], env, "Iface")
+		return fmt.Sprintf("(itype %s)", x), goInt
+	case "typetag":
+		vt, err := g.eng.resolveType(typeText(e.Args[0]), env.pkg)
+		if err != nil {
+			trFail("%v", err)
+		}
+		return fmt.Sprint(g.eng.typeTag(vt.Go)), goInt
 	case "isa":
 		// isa(x, T): the reference x was allocated as a struct of type T
 		x, _ := g.tr(e.Args[0], env)
